@@ -10,9 +10,12 @@ The property theorems live in
                        trip are decided on every generated mesh; `index_alpha_beta`
   Props/C04Tps.lean    what the SVD-based solve of the spline computes (from numpy's raw SVD contract); the two
                        kernel classes define the same warp
-and the obligations over the tables regenerated from the live classes in GenProps/C04.lean.
+  Props/C04Chain.lean  chains of any length: the reversed chain of pseudoinverses inverts the chain
+and the obligations over the tables regenerated from the live classes in GenProps/C04.lean, over the pseudoinverse code
+TRANSLATED FROM SOURCE on every run in GenProps/C04Src.lean (vocabulary: Core/C04Src.lean, lemmas: Lemmas/C04Src.lean).
 -/
 import MenpoModel.Props.C04Base
 import MenpoModel.Props.C04Ops
 import MenpoModel.Props.C04Mesh
 import MenpoModel.Props.C04Tps
+import MenpoModel.Props.C04Chain
